@@ -24,11 +24,14 @@ ItemSets == {<<It(1, s, "", "")>> : s \in BOOLEAN} \cup
             {<<It(1, TRUE, "E1", "")>>, <<It(1, FALSE, "", ""), It(2, TRUE, "E1", "")>>,
              <<It(1, FALSE, "", ""), It(2, FALSE, "", "E3")>>, <<It(1, FALSE, "", "E3")>>}
 \* `with ... as TARGET`: <<target form, value of __enter__, exception of the recording holder's store>>
-AsOk   == {<<"name", "self", "">>, <<"tup", "t2", "">>, <<"star", "t3", "">>, <<"star", "t1", "">>, <<"attr", "int", "">>,
-           <<"tupst", "t2", "">>}
-AsFail == {<<"tup", "self", "">>, <<"tup", "t3", "">>, <<"lst", "t1", "">>, <<"star", "t0", "">>, <<"star", "int", "">>,
-           <<"attr", "self", "E1">>, <<"sub", "t2", "E3">>, <<"tupst", "t2", "E1">>, <<"tupst", "t3", "E1">>,
-           <<"slot", "self", "">>, <<"idx", "int", "">>}
+\* (nesting 2 with the small leaf set: one representative per way of succeeding / raising)
+AsOk   == IF Deep = 1 THEN {<<"name", "self", "">>, <<"tupst", "t2", "">>}
+          ELSE {<<"name", "self", "">>, <<"tup", "t2", "">>, <<"star", "t3", "">>, <<"star", "t1", "">>, <<"attr", "int", "">>,
+                <<"tupst", "t2", "">>}
+AsFail == IF Deep = 1 THEN {<<"tup", "int", "">>, <<"attr", "self", "E1">>, <<"tupst", "t2", "E1">>}
+          ELSE {<<"tup", "self", "">>, <<"tup", "t3", "">>, <<"lst", "t1", "">>, <<"star", "t0", "">>, <<"star", "int", "">>,
+                <<"attr", "self", "E1">>, <<"sub", "t2", "E3">>, <<"tupst", "t2", "E1">>, <<"tupst", "t3", "E1">>,
+                <<"slot", "self", "">>, <<"idx", "int", "">>}
 AsOkItems   == {<<ItA(1, s, "", a[1], a[2], a[3])>> : s \in BOOLEAN, a \in AsOk}
 \* the binding raises in the only / the second / the first item (then the second item is never constructed);
 \* also with an __exit__ that raises in turn
